@@ -238,3 +238,22 @@ def run(chk):
     chk.guard("R3", lambda: r3(chk))
     chk.guard("R4", lambda: r4(chk))
     chk.guard("R5", lambda: r5(chk))
+
+    def r6():
+        # `return` replaces the body, so the members are never read: the member-name checks of validation must stay exempted for
+        # instructions that carry one (otherwise a valid input is rejected and no impl is produced). Imported from C15.R9.
+        from ..core import Check
+        from . import c15
+        sub = Check("C15", chk.repo, chk.tier)
+        sub.guard("R9", lambda: c15.r9(sub))
+        chk.rule("R6", "validation exempts quick-return instructions from the per-member name checks (guard sets of those diagnostics contain `quick_return.is_none()`)", floor=4)
+        for r_, why in sub.inconclusive:
+            if "validate_fields" in why or "validate_variant_fields" in why or "table" in why:
+                chk.inconc("R6", why)
+        for i in sub.instances:
+            if i.rule == "R9" and (i.key.startswith("validate_fields[Member") or i.key.startswith("validate_variant_fields[Member")):
+                if i.ok:
+                    chk.ok("R6", "validation:" + i.key, i.file, i.line)
+                else:
+                    chk.bad("R6", "validation:" + i.key, i.file, i.line, i.what, i.expected, i.found)
+    chk.guard("R6", r6)
